@@ -467,13 +467,29 @@ func (w *world) doOp(f []string) string {
 			w.assumeBad = true
 		}
 		w.committed[k] = true
-		v.NodeCommitted(false, u(f[1]), u(f[2]), u(f[3]))
+		// RequestState.committed() is reached with the shard lock held (the proposal stays in the table:
+		// without the lock it can be expired, released and reused before the notification is sent).
+		// Its plog.Panicf calls (notify commit not allowed / committedC full / nil) run inside that section.
+		key := u(f[3])
+		onPanic = func(msg string) {
+			if strings.Contains(msg, "ommit") && !v.ProposalShardLockHeld(key) {
+				w.apiBad = fmt.Sprintf("the Committed notification of proposal %d is sent without the shard lock (seen at %q)", key, msg)
+			}
+		}
+		defer func() { onPanic = nil }()
+		v.NodeCommitted(false, u(f[1]), u(f[2]), key)
 	case "CC":
 		k := "C " + f[1]
 		if w.committed[k] {
 			w.assumeBad = true
 		}
 		w.committed[k] = true
+		onPanic = func(msg string) {
+			if strings.Contains(msg, "ommit") && !v.ConfigChangeLockHeld() {
+				w.apiBad = fmt.Sprintf("the Committed notification of a config change is sent without the table lock (seen at %q)", msg)
+			}
+		}
+		defer func() { onPanic = nil }()
 		v.NodeCommitted(true, 0, 0, w.real(w.ccKey, u(f[1])))
 	case "XN":
 		// the real node.close()
@@ -557,6 +573,24 @@ func (w *world) ctx(lo, hi string) (uint64, uint64) {
 		return c[0], c[1]
 	}
 	return u(lo), u(hi)
+}
+
+// probeLogger: see main. onPanic is set while an operation of a case runs.
+type probeLogger struct{}
+
+var onPanic func(msg string)
+
+func (probeLogger) SetLevel(logger.LogLevel)        {}
+func (probeLogger) Debugf(string, ...interface{})   {}
+func (probeLogger) Infof(string, ...interface{})    {}
+func (probeLogger) Warningf(string, ...interface{}) {}
+func (probeLogger) Errorf(string, ...interface{})   {}
+func (probeLogger) Panicf(format string, args ...interface{}) {
+	msg := fmt.Sprintf(format, args...)
+	if onPanic != nil {
+		onPanic(msg)
+	}
+	panic(msg)
 }
 
 func (w *world) real(m map[uint64]uint64, k uint64) uint64 {
@@ -810,6 +844,9 @@ func runCase(line string, st *vh.Stats) string {
 			if p != "" {
 				c := panicCode(p)
 				out = append(out, fmt.Sprintf("X%d", c))
+				if w.apiBad != "" {
+					st.Violation(id, w.apiBad)
+				}
 				st.Count(fmt.Sprintf("panic.%d", c))
 				// a panic is a violation unless the case broke an assumption of the environment
 				switch {
@@ -867,9 +904,9 @@ func runCase(line string, st *vh.Stats) string {
 }
 
 func main() {
-	for _, pkg := range []string{"dragonboat", "raft", "rsm", "logdb", "transport", "grpc", "config", "raftpb", "utils", "tan", "registry", "server", "settings", "pebblekv"} {
-		logger.GetLogger(pkg).SetLevel(logger.CRITICAL)
-	}
+	// the library logs through this logger: silent, and its Panicf - which runs inside the library at
+	// the point of the plog.Panicf - lets the harness look at the locks before the panic unwinds
+	logger.SetLoggerFactory(func(string) logger.ILogger { return probeLogger{} })
 	a := vh.ParseArgs()
 	switch a.Mode {
 	case "gen":
